@@ -224,6 +224,7 @@ def run(ctx: Ctx):
         cases = load_corpus() + gen_cases(ctx, rng.fork("gen"), quick) + [{"cat": "stats", "ops": ["stats"]}]
         res = K.lockstep(ctx, hb, cases, impl_env={"KV_WORK": kvwork}, timeout=3000)
         n_mismatch = 0
+        deferred = []
         for c, impl, model in res:
             if c["cat"] == "stats":
                 st = dict(x.split("=") for x in impl[0].split()[1:]) if impl[0].startswith("stats ") else {}
@@ -241,7 +242,10 @@ def run(ctx: Ctx):
                 # corpus witness of a repaired defect: must NOT fail any more (a failure is reported like any other)
                 pass
             if fails:
-                report_property(ctx, hb, kvwork, c, impl, model, fails)
+                if all(f.startswith("M1(cache)") for f in fails):
+                    deferred.append((c, impl, model, fails))       # only the harness's internal-invariant probe objects: reported after the public divergences
+                else:
+                    report_property(ctx, hb, kvwork, c, impl, model, fails)
                 continue
             mism = compare_case(c, impl, model)
             if mism:
@@ -252,6 +256,8 @@ def run(ctx: Ctx):
                               {"broken": {"correspondence": "kv lockstep (harness/c12_kv.cpp vs Model/KvStore.lean, Model/KvLog.lean)",
                                           "detail": "first differing op index %d of %d" % (i, len(c["ops"]))},
                                "ops": c["ops"], "observed": impl, "expected_by_model": model}, found_input=False)
+        for c, impl, model, fails in deferred:
+            report_property(ctx, hb, kvwork, c, impl, model, fails)
         ctx.extra["lockstep_mismatching_cases"] = n_mismatch
     ctx.extra["input_distribution"] = {"cases": dist, "ops": opdist}
     ctx.extra["repo_tree_sha"] = ctx.repo_tree_sha(ANCHOR_FILES)
